@@ -101,6 +101,14 @@ def string_cases(rng, flavor, net, others, count):
 	def add(text, why):
 		cases.append({'kind': 'string', 'flavor': flavor, 'net': net, 'text': text, 'why': why})
 
+	# deterministic boundary corpus: a valid address with one control / whitespace character (or two) after it, before it, inside it
+	# (regular-expression anchors, strip() and split() slips); none of these has the network's length and alphabet
+	valid = ref_text(ref_address(flavor, ident, rand_bytes(rng, 32)))
+	for extra in ['\n', '\r', '\r\n', '\n\n', ' ', '\t', '\x0b', '\x0c', '\x00', '\x1f', '\x7f', '\x85', '\u2028', '\u00a0']:
+		add(valid + extra, 'valid-plus-trailing-character')
+		add(extra + valid, 'valid-after-leading-character')
+		add(valid[:10] + extra + valid[10:], 'character-inside')
+		add(valid[:-1] + extra, 'last-character-replaced')
 	while len(cases) < count:
 		addr = ref_address(flavor, ident, rand_bytes(rng, 32))
 		text = ref_text(addr)
